@@ -10,7 +10,7 @@ import numpy as np
 
 from . import samplercase
 from .. import drive, env, workloads
-from ..instrument import Hooks, bound_geometry_digest, digest_arrays, points_array, result_digest
+from ..instrument import Hooks, VirtualClock, bound_geometry_digest, digest_arrays, points_array, result_digest
 
 ID = 'C12'
 LEVEL = 'exploration'
@@ -249,6 +249,8 @@ def _paths_case(spec):
             prob = workloads.Problem(prob_spec)
             path = os.path.join(scratch, name + '.hdf5')
             s = workloads.make_sampler(prob, cfg, filepath=path, resume=False)
+            guard = Hooks([], proposal_budget=30_000_000, clock=VirtualClock())
+            guard.__enter__()
             try:
                 ok = s.run(discard_exploration=(name == 'in_run'), **kw0)
                 if not (ok and s.explored):
@@ -263,8 +265,15 @@ def _paths_case(spec):
                 s.run(**fin)
                 res[name] = (st0, result_digest(s), int(s.n_like), _stats(s))
                 obs['snapshots'] += 2
+            except workloads.BudgetExceeded as e:
+                viol.append(dict(key='view.request-path-does-not-finish', what='discard requested by %s: %s' % (name, e)))
+                break
             finally:
+                guard.__exit__(None, None, None)
                 workloads.close_sampler(s)
+        if viol:
+            return {'status': 'violation', 'obs': obs, 'nontrivial': True, 'key': 'paths|' + samplercase.case_key(spec),
+                    'violations': [dict(v, case=samplercase.case_key(spec)) for v in viol]}
         base = res['in_run']
         for name in ('setter', 'setter_after_resume'):
             obs['paths_compared'] += 1
